@@ -507,7 +507,13 @@ def check_wait_discipline(ck: Checker, rid: str, modules=(WORKER, QUEUES), minim
     nsites = 0
     # sites behind this property: the worker's collector and the SingleLane batch buffer
     # (the servers' admission waits belong to C06-1 and are decided there)
-    funcs = [f for m in modules for f in ck.repo.module(m).functions.values()]
+    funcs = []
+    for m in modules:
+        if m == QUEUES:
+            # the SingleLane class, wherever it is defined (a moved definition is found by its name)
+            funcs += ck.repo.cls(QUEUES, 'SingleLane').methods()
+        else:
+            funcs += list(ck.repo.module(m).functions.values())
     for f in funcs:
         waits = [n for n in walk_shallow_func(f.node) if isinstance(n, ast.Call) and method_of(n)[1] == 'wait' and method_of(n)[0] is not None]
         if not waits:
@@ -553,7 +559,7 @@ def check_wait_discipline(ck: Checker, rid: str, modules=(WORKER, QUEUES), minim
                     else:
                         probs.append(f'the predicate `{norm_text(gov.ast)[:50]}` (L{gov.lineno}) is evaluated outside `{cond}`\'s lock and the wait is unbounded: a notification sent between the test and the wait is lost and the waiter parks for ever')
                 is_loop_test = bool(gov.extra.get('loop'))
-                if not is_loop_test and not in_loop and (f.module.rel.replace('src/mpservice/', ''), f.qualname) not in SINGLE_WAITER:
+                if not is_loop_test and not in_loop and f.qualname not in {q for _, q in SINGLE_WAITER}:
                     probs.append('the wait sits under `if`, not in a re-testing loop, and a single waiter is not established for this site')
             why = SINGLE_WAITER.get((f.module.rel.replace('src/mpservice/', ''), f.qualname))
             ck.ob(rid, f, node.ast, not probs, '; '.join(probs) if probs else f'wait on `{cond}` governed by `{norm_text(gov.ast)[:40] if gov else "-"}` ' + ('evaluated under its lock' if gov is not None and cond in held.get(gov.id, frozenset()) else '(bounded wait in a re-testing loop)') + (f'; `if` suffices: {why}' if why and gov is not None and not gov.extra.get('loop') else ''))
